@@ -108,10 +108,24 @@ def ppmflow(run, fx):
                 src = fn.strip_all_casts(e['c'][0])
                 if src['k'] == 'DeclRefExpr' and src.get('vid') == p_['vid']:
                     probs.append((fn.loc(e), '%s converts the size `%s` to an integer' % (fn.q, p_['n'])))
+        for _, e in fn.elements():
+            tgt = None
+            if e['k'] in ('BinaryOperator', 'CompoundAssignOperator') and e.get('op', '').endswith('=') and e['op'] not in ('==', '!=', '<=', '>='):
+                tgt = e['c'][0]
+            elif e['k'] == 'UnaryOperator' and e.get('op') in ('pre++', 'pre--', 'post++', 'post--', '&'):
+                tgt = e['c'][0]
+            if tgt is not None:
+                t_ = fn.strip_all_casts(fn.N(tgt))
+                if t_['k'] == 'DeclRefExpr' and t_.get('vid') == p_['vid']:
+                    probs.append((fn.loc(e), '%s changes the size it was given (`%s`) before passing it on' % (fn.q, fn.render(e)[:60])))
         for cf, ce in callers_of(fx, fn.q):
             args = ce.get('args') if ce.get('args') is not None else ce.get('c') or []
             if j >= len(args) or args[j] is None:
                 continue
+            a0 = cf.strip_all_casts(args[j])
+            cpv0 = {q_['vid'] for q_ in cf.f.get('params') or []}
+            if a0['k'] != 'DeclRefExpr' and a0.get('v') is None and a0.get('fv') is None and any(x['k'] == 'DeclRefExpr' and x.get('vid') in cpv0 and (x.get('t') or '') in ('float', 'double') for x in cf.walk(args[j])):
+                probs.append((cf.loc(ce), '%s passes `%s`, not the size it was given, to %s' % (cf.q, cf.render(a0)[:60], fn.q)))
             for x in cf.walk(args[j]):
                 if x['k'].endswith('CastExpr') and x.get('ck') in ('FloatingToIntegral', 'FloatingToBoolean'):
                     probs.append((cf.loc(ce), '%s converts the size to an integer where it calls %s' % (cf.q, fn.q)))
@@ -120,8 +134,8 @@ def ppmflow(run, fx):
             if a['k'] == 'DeclRefExpr' and a.get('vid') in cpv:
                 chain.append((cf, cpv[a['vid']]))
     if probs:
-        run.violated('SCALEUSE', inst, probs[0][0], '%s: a fractional pixels-per-em value is truncated before the scale factor is computed, so positions are no longer the '
-                     'design-unit values times P/upem for the P the caller passed' % probs[0][1])
+        run.violated('SCALEUSE', inst, probs[0][0], '%s: the scale factor is not computed from the pixels-per-em value the caller passed (truncated, clamped or replaced on the way), so '
+                     'positions are no longer the design-unit values times P/upem for that P' % probs[0][1])
     else:
         run.held('SCALEUSE', inst, ct.where(), '%d function(s) on the way from the API to m_scale, all take and pass the size as a floating-point value' % len(seen))
 
